@@ -115,13 +115,35 @@ Theorem C20_mapping_roundtrip : forall kvs : list (str * str),
 Proof. exact dict_roundtrip. Qed.
 Print Assumptions C20_mapping_roundtrip.
 
+(* T-G: the spellings of a member name tried by the source are the ones of the model *)
+Example C20_enum_lookup_as_modelled : gen_enum_lookup = enum_lookup.
+Proof. reflexivity. Qed.
+
 Theorem C20_enum_by_number_or_name : forall m s name z,
   (py_int s = Some z -> by_value m z = Some name -> parse (p_dispatch gen_params) (TEnum m) s = Ok (VEnum name)) /\
-  (py_int s = None -> by_name m (upper s) = Some name -> parse (p_dispatch gen_params) (TEnum m) s = Ok (VEnum name)) /\
-  ((py_int s = None \/ by_value m z = None /\ py_int s = Some z) -> by_name m (upper s) = None ->
+  (py_int s = None -> by_name m s = None -> by_name m (upper s) = Some name -> parse (p_dispatch gen_params) (TEnum m) s = Ok (VEnum name)) /\
+  ((py_int s = None \/ by_value m z = None /\ py_int s = Some z) -> by_name m s = None -> by_name m (upper s) = None ->
      parse (p_dispatch gen_params) (TEnum m) s = Err KeyError).
 Proof. exact (fun m s name z => conj (enum_by_number m s name z) (conj (enum_by_name m s name) (enum_rejects m s z))). Qed.
 Print Assumptions C20_enum_by_number_or_name.
+
+(* every member of every enumeration is found by its own name, whatever its letter case (the natural text form of a member) ... *)
+Theorem C20_enum_member_by_own_name : forall (m : list (str * Z)) (n : str),
+  In n (map fst m) -> py_int n = None -> parse (p_dispatch gen_params) (TEnum m) n = Ok (VEnum n).
+Proof. exact (fun m n H1 H2 => enum_member_by_own_name [NUpper] m n H1 H2). Qed.
+Print Assumptions C20_enum_member_by_own_name.
+
+(* ... and whatever is accepted by name is a member, spelled exactly or in upper case *)
+Theorem C20_enum_parse_sound : forall (m : list (str * Z)) (s n : str),
+  py_int s = None -> parse (p_dispatch gen_params) (TEnum m) s = Ok (VEnum n) -> In n (map fst m) /\ (n = s \/ n = upper s).
+Proof. exact enum_parse_sound. Qed.
+Print Assumptions C20_enum_parse_sound.
+
+(* repaired defect: with the pinned lookup (upper-cased spelling only) a member named in lower case was not found *)
+Theorem C20_enum_member_pinned_refuted :
+  exists m n, In n (map fst m) /\ py_int n = None /\ parse_enum_with [NUpper] m n = Err KeyError.
+Proof. exact enum_member_pinned_refuted. Qed.
+Print Assumptions C20_enum_member_pinned_refuted.
 
 Example C20_nonvacuous :
   let st := {| known := [(s2l "N", {| cv_ty := TInt; cv_default := VInt 7 |})]; explicit := []; envm := [] |} in
